@@ -33,7 +33,7 @@ func isPop(c *Ctx, e ast.Node) bool {
 // ---------- POPORDER-1 ----------
 
 func rulePopOrder(c *Ctx) {
-	c.R.Rule("POPORDER-1", 5, "operands are popped in reverse and restored to source order: every counted loop that pops stores (a value derived from) the popped operand at the reversed index n-1-i of a slice, and does nothing order-sensitive (map insertion, call) inside the loop")
+	c.R.Rule("POPORDER-1", 4, "operands are popped in reverse and restored to source order: every counted loop that pops stores (a value derived from) the popped operand at the reversed index n-1-i of a slice, and does nothing order-sensitive (map insertion, call) inside the loop")
 	m := c.opcodes()
 	if m == nil || m.sw == nil {
 		c.R.Anchor("vm.switchThreading")
@@ -421,7 +421,7 @@ func ruleBC1(c *Ctx) {
 // ---------- BC-2 ----------
 
 func ruleBC2(c *Ctx) {
-	c.R.Rule("BC-2", 3, "operand widths: every narrowing uint8(x)/uint16(x) in the bytecode emitter is dominated by util.Assert(x <= math.MaxUintN) with the matching N on the same x (values are refused at compile time, never truncated)")
+	c.R.Rule("BC-2", 2, "operand widths: every narrowing uint8(x)/uint16(x) in the bytecode emitter is dominated by util.Assert(x <= math.MaxUintN) with the matching N on the same x (values are refused at compile time, never truncated)")
 	pk := c.Mod["vm"]
 	if pk == nil {
 		c.R.Anchor("package vm")
@@ -496,7 +496,7 @@ func ruleBC2(c *Ctx) {
 // ---------- BC-6 ----------
 
 func ruleBC6(c *Ctx) {
-	c.R.Rule("BC-6", 8, "the evaluation stack: sp/stack are written only by newStack, growStack, Push, Pop; Push grows (by a positive constant, copying the whole old stack) exactly when sp == len before storing at sp and incrementing; Pop asserts non-empty before reading sp-1 and decrementing")
+	c.R.Rule("BC-6", 6, "the evaluation stack: sp/stack are written only by newStack, growStack, Push, Pop; Push grows (by a positive constant, copying the whole old stack) exactly when sp == len before storing at sp and incrementing; Pop asserts non-empty before reading sp-1 and decrementing")
 	spF, stF := c.Field("vm", "stack", "sp"), c.Field("vm", "stack", "stack")
 	if spF == nil || stF == nil {
 		c.R.Anchor("vm.stack fields")
@@ -582,7 +582,7 @@ func ruleBC6(c *Ctx) {
 // ---------- BC-7 ----------
 
 func ruleBC7(c *Ctx) {
-	c.R.Rule("BC-7", 5, "constant pool: every body (program and thunks) compiled by one Compiler shares that Compiler's pool; addConst gives every emitted constant its own fresh slot and returns that slot's index")
+	c.R.Rule("BC-7", 4, "constant pool: every body (program and thunks) compiled by one Compiler shares that Compiler's pool; addConst gives every emitted constant its own fresh slot and returns that slot's index")
 	cc := c.FuncDecl("vm", "Compiler.Compile")
 	if cc == nil {
 		c.R.Anchor("vm.Compiler.Compile")
@@ -997,7 +997,7 @@ func ruleSibling3(c *Ctx) {
 // ---------- SIBLING-8 ----------
 
 func ruleSibling8(c *Ctx) {
-	c.R.Rule("SIBLING-8", 6, "a function value is never called with evaluated arguments unless its Lazy flag was consulted: every FunVal.Call(args...) in a back end is in a function that reads the callee's Lazy flag (or passes the callee to one that does), or executes an opcode whose emitter chose it under the Lazy flag")
+	c.R.Rule("SIBLING-8", 5, "a function value is never called with evaluated arguments unless its Lazy flag was consulted: every FunVal.Call(args...) in a back end is in a function that reads the callee's Lazy flag (or passes the callee to one that does), or executes an opcode whose emitter chose it under the Lazy flag")
 	// opcodes emitted under a Lazy test
 	lazyOps := map[string]bool{}
 	if cis := c.FuncDecl("vm", "bytecode.compileInvokeStatic"); cis != nil {
@@ -1100,7 +1100,7 @@ func ruleSibling8(c *Ctx) {
 // ---------- LAZY-1 / LAZY-5 ----------
 
 func ruleLazy(c *Ctx) {
-	c.R.Rule("LAZY", 8, "lazy functions receive thunks, strict ones values: in each back end's argument builder an argument is evaluated only in the not-Lazy branch and deferred (thunk literal / thunk body) in the Lazy branch; a thunk is a single return of the evaluation, with no state (no caching in one back end only)")
+	c.R.Rule("LAZY", 6, "lazy functions receive thunks, strict ones values: in each back end's argument builder an argument is evaluated only in the not-Lazy branch and deferred (thunk literal / thunk body) in the Lazy branch; a thunk is a single return of the evaluation, with no state (no caching in one back end only)")
 	// closure.makeCallClosure
 	check := func(sp, fn string, evalIs func(call *ast.CallExpr) bool, thunkMaker string) {
 		fd := c.FuncDecl(sp, fn)
